@@ -312,9 +312,9 @@ pub trait RiRefBufImpl: Sized + RiRefImpl {
 				bytes[start..actual_start].copy_from_slice(b"/.");
 				bytes[actual_start..(actual_start + path.len())].copy_from_slice(path.as_bytes())
 			}
-		} else if has_authority && path.is_relative() {
+		} else if has_authority && path.is_relative() && !path.is_empty() {
 			// VALIDITY: When an authority is present, the path must be
-			//           absolute.
+			//           absolute or empty.
 			unsafe {
 				let start = range.start;
 				let actual_start = start + 1;
